@@ -3,8 +3,8 @@
    events; [run evs = Some s] = the acceptor accepts it. Loss = a send without deliver / a deliver
    without reply; duplication, delay, reordering = delivers in any number and order (the commit-point
    request: at most one delivery per send); crash = [ECrash]. [hasm s T] = T's mutations were logged,
-   [classic s T] = T never used async commit / 1PC and no resolve of T was derived from the
-   CheckSecondaryLocks fold. [F s T FTold] = 1 / 2 / 3 for Commit returning nil / undetermined / error. *)
+   [classic s T] = T never used async commit / 1PC (then no resolve of T can be derived from the
+   CheckSecondaryLocks fold: Inv.classic_flags). [F s T FTold] = 1 / 2 / 3 for Commit returning nil / undetermined / error. *)
 From Verif Require Import Percolator.Atomic Percolator.Trace Percolator.ProofsTrace Percolator.AddKeys Percolator.Heartbeat.
 From Coq Require Import Sorting.Sorted Permutation.
 
@@ -21,7 +21,7 @@ Theorem C02_atomic : forall evs s T, run evs = Some s -> hasm s T -> classic s T
   (F s T FTold = 1 -> exists c, kget s T (prim s T) = Committed c /\
      forall evs' s', run_from s evs' = Some s' -> F s' T FTold = 1 /\ kget s' T (prim s' T) = Committed c) /\
   (* (iv) told a definite failure => no key is committed, now or in any accepted extension *)
-  (F s T FTold = 3 -> forall evs' s', run_from s evs' = Some s' -> classic s' T ->
+  (F s T FTold = 3 -> forall evs' s', run_from s evs' = Some s' ->
      F s' T FTold = 3 /\ forall k c, kget s' T k <> Committed c).
 Proof.
   intros evs s T R Hm Hc. split; [| split; [| split; [| split]]].
@@ -29,7 +29,7 @@ Proof.
   - exact (atomic_all_or_nothing evs s T R Hm Hc).
   - exact (committed_keys evs s T R Hm Hc).
   - intros Ht. destruct (told_ok_committed evs s T R Hm Hc Ht) as [c [A [_ B]]]. eauto.
-  - exact (told_err_never evs s T R Hm).
+  - exact (told_err_never evs s T R Hm Hc).
 Qed.
 Print Assumptions C02_atomic.
 
@@ -51,12 +51,12 @@ Theorem C03_truthful : forall evs s T, run evs = Some s -> hasm s T -> classic s
   (F s T FTold = 1 -> exists c, kget s T (prim s T) = Committed c /\
      (forall k, In k (lm s T) -> kget s T k = Committed c \/ exists m, kget s T k = Locked m) /\
      forall evs' s', run_from s evs' = Some s' -> F s' T FTold = 1 /\ kget s' T (prim s' T) = Committed c) /\
-  (F s T FTold = 3 -> forall evs' s', run_from s evs' = Some s' -> classic s' T ->
+  (F s T FTold = 3 -> forall evs' s', run_from s evs' = Some s' ->
      F s' T FTold = 3 /\ forall k c, kget s' T k <> Committed c).
 Proof.
   intros evs s T R Hm Hc. split.
   - exact (told_ok_committed evs s T R Hm Hc).
-  - exact (told_err_never evs s T R Hm).
+  - exact (told_err_never evs s T R Hm Hc).
 Qed.
 Print Assumptions C03_truthful.
 
@@ -75,7 +75,8 @@ Print Assumptions C03_fault_free_never_undetermined.
 Theorem C04_accept_sound : forall evs s, run evs = Some s ->
   commit_after_all_prewrites evs /\ secondaries_after_primary evs /\
   no_rollback_after_possible_commit evs /\ resolve_uses_reported_status evs /\
-  commit_ts_bounds evs /\ expire_only_expired evs /\ told_ok_after_commit evs /\ undetermined_only_if evs.
+  commit_ts_bounds evs /\ expire_only_expired evs /\ told_ok_after_commit evs /\ undetermined_only_if evs /\
+  told_err_only_if evs /\ csl_only_listed evs.
 Proof. exact accept_sound. Qed.
 Print Assumptions C04_accept_sound.
 
